@@ -32,6 +32,10 @@ def py_leaf(l):
     if 'sum' in l:
         import atsim.potentials as ap
         return ap.plus(py_leaf(l['sum'][0]), py_leaf(l['sum'][1]))
+    if 'spline' in l:
+        import atsim.potentials as ap
+        sp = l['spline']
+        return ap.SplinePotential(py_leaf(sp['start']), py_leaf(sp['end']), sp['detach'], sp['attach'])
     return getattr(pfm, l['form'])(*l['params'])
 
 def point_data(l, r):
@@ -97,6 +101,7 @@ class SolveRecorder(object):
 
 def defn(l):
     if 'sum' in l: return 'sum(%s, %s)' % (defn(l['sum'][0]), defn(l['sum'][1]))
+    if 'spline' in l: return 'spline(%s >%r exp_spline >%r %s)' % (defn(l['spline']['start']), l['spline']['detach'], l['spline']['attach'], defn(l['spline']['end']))
     return 'as.%s %s' % (l['form'], ' '.join(repr(p) for p in l['params']))
 
 def build(case, route=None):
@@ -272,9 +277,14 @@ def oracle_corpus():
           'detach': 0.8, 'attach': 1.4, 'route': 'modifier'}
     c2 = {'kind': 'buck4', 'start': {'sum': [{'form': 'bornmayer', 'params': [1000.0, 0.3]}, {'form': 'constant', 'params': [0.5]}]}, 'end': {'sum': [{'form': 'buck', 'params': [0.0, 1.0, 30.0]}, {'form': 'constant', 'params': [-0.25]}]},
           'detach': 1.2, 'r_min': 2.0, 'attach': 2.6, 'route': 'modifier'}
+    # a spline whose start potential is itself a spline of the same kind: two regions, each with its own knots
+    inner = {'spline': {'start': {'form': 'zbl', 'params': [14.0, 8.0]}, 'end': {'form': 'buck', 'params': [18003.7572, 0.2052, 133.5381]}, 'detach': 0.8, 'attach': 1.4}}
+    c3 = {'kind': 'exp', 'start': inner, 'end': {'form': 'constant', 'params': [0.25]}, 'detach': 4.0, 'attach': 5.0, 'route': 'modifier'}
+    c4 = {'kind': 'exp', 'start': {'form': 'bornmayer', 'params': [1000.0, 0.5]}, 'end': {'spline': {'start': {'form': 'buck', 'params': [500.0, 0.5, 10.0]}, 'end': {'form': 'constant', 'params': [0.5]}, 'detach': 3.0, 'attach': 3.5}},
+          'detach': 1.0, 'attach': 2.0, 'route': 'modifier'}
     out = []
     rng = random.Random(11)
-    for c in (c1, c2):
+    for c in (c1, c2, c3, c4):
         c['rs'] = sample_rs(rng, c); out.append(c)
     return out
 
